@@ -353,6 +353,28 @@ def run_c12(tier, seed):
             prog += ([("SET", [b"n1", st])] if st is not None else [("DEL", [b"n1"])]) + [(op[0], [b"n1"] + op[1]), ("GET", [b"n1"])]
         cases.append(prog_case(prog, [], "counters from %r: INCR DECR INCRBY/DECRBY x %d deltas" % (st, len(DELTAS))))
         grid["counters"] += len(prog) // 3
+    # every derived command on a MISSING key and with EMPTY operands, each followed by what shows whether the key exists now
+    # (Redis creates the key on APPEND "" / INCRBY 0 / MSETNX; a command that only reads must not create it), and the same
+    # derived read twice in a row on an unchanged key
+    seen_probe = [("EXISTS", [b"e1"]), ("TYPE", [b"e1"]), ("GET", [b"e1"]), ("STRLEN", [b"e1"])]
+    for op in [("APPEND", [b"e1", b""]), ("APPEND", [b"e1", b"x"]), ("INCRBY", [b"e1", b"0"]), ("DECRBY", [b"e1", b"0"]), ("INCR", [b"e1"]), ("MSETNX", [b"e1", b""]), ("MSET", [b"e1", b""]),
+               ("GETRANGE", [b"e1", b"0", b"-1"]), ("SUBSTR", [b"e1", b"0", b"0"]), ("STRLEN", [b"e1"]), ("MGET", [b"e1"]), ("HLEN", [b"e1"]), ("HKEYS", [b"e1"]), ("HVALS", [b"e1"]),
+               ("HMGET", [b"e1", b"f"]), ("HEXISTS", [b"e1", b"f"]), ("HSTRLEN", [b"e1", b"f"]), ("SCARD", [b"e1"]), ("SISMEMBER", [b"e1", b"m"]), ("ZCARD", [b"e1"]),
+               ("ZREVRANGE", [b"e1", b"0", b"-1"]), ("ZREVRANGEBYSCORE", [b"e1", b"+inf", b"-inf"]), ("HMSET", [b"e1", b"", b""])]:
+        for pre in ([], [("SET", [b"e1", b""])]):
+            if pre and op[0][0] in "HSZ":
+                continue
+            prog = [("DEL", [b"e1"])] + pre + [op] + seen_probe + [op, op] + seen_probe[:2]
+            cases.append(prog_case(prog, [], "%s%s on a %s key, then EXISTS / TYPE / GET / STRLEN, then twice more" % ("SET e1 '' ; " if pre else "", req_desc(*op), "just created empty" if pre else "missing")))
+            grid["random"] += 1
+    for setup, reads in [([("HSET", [b"h9", b"f1", b"a"]), ("HSET", [b"h9", b"f2", b"b"])], [("HLEN", [b"h9"]), ("HKEYS", [b"h9"]), ("HVALS", [b"h9"]), ("HMGET", [b"h9", b"f1", b"f2"]), ("HEXISTS", [b"h9", b"f1"])]),
+                         ([("SADD", [b"s9", b"a", b"b"])], [("SCARD", [b"s9"]), ("SISMEMBER", [b"s9", b"a"])]),
+                         ([("ZADD", [b"z9", b"1", b"a", b"2", b"b"])], [("ZCARD", [b"z9"]), ("ZREVRANGE", [b"z9", b"0", b"-1"]), ("ZREVRANGEBYSCORE", [b"z9", b"+inf", b"-inf", b"WITHSCORES"])]),
+                         ([("SET", [b"k9", b"abc"])], [("STRLEN", [b"k9"]), ("GETRANGE", [b"k9", b"0", b"-1"]), ("MGET", [b"k9", b"nokey"])])]:
+        key = setup[0][1][0]
+        prog = setup + [r for r in reads for _ in range(3)] + [("RENAME", [key, key + b"r"])] + [(n_, [key + b"r"] + a_[1:]) for n_, a_ in reads for _ in range(2)]
+        cases.append(prog_case(prog, [], "derived reads repeated on an unchanged key, then after RENAME: " + " ; ".join(req_desc(n, a) for n, a in reads)))
+        grid["random"] += 1
     # random programs over all derived commands, with a final-state probe
     for _ in range(400 if tier == "quick" else 8000):
         prog = [c12_random_request(rng) for _ in range(rng.randint(1, 25))]
